@@ -173,17 +173,34 @@ func runC14(toks []string) Result {
 	}
 	done := make(chan struct{})
 	go func() { wg.Wait(); close(done) }()
+	stuck := ""
 	select {
 	case <-done:
-	case <-time.After(60 * time.Second):
+	case <-time.After(40 * time.Second):
 		close(stop)
+		stuck = "the workload did not finish within 40 s (a client or the lifecycle thread is blocked)"
 	}
-	srv.Stop()
+	stopped := make(chan struct{})
+	go func() { srv.Stop(); close(stopped) }()
+	select {
+	case <-stopped:
+	case <-time.After(10 * time.Second):
+		stuck = "Stop did not return within 10 s after the workload"
+	}
 	time.Sleep(20 * time.Millisecond)
 	reports := collectRaceReports()
 	tags := []string{"nt", "clients" + toks[1]}
 	for f := range flags {
 		tags = append(tags, "wl-"+f)
+	}
+	if stuck != "" {
+		sort.Strings(tags[2:])
+		obs := "stuck"
+		if len(reports) > 0 {
+			sort.Strings(reports)
+			obs = "stuck,races:" + strings.Join(reports, "|")
+		}
+		return Result{Obs: obs, Oracle: "fail:" + stuck, Tags: tags}
 	}
 	sort.Strings(tags[2:])
 	if len(reports) == 0 {
